@@ -312,9 +312,12 @@ func (p *poller) modify(fd int, event Event) error {
 }
 
 func (p *poller) Del(slot *Slot) error {
+	// Both interests are dropped, and un-counted, even if dropping the first one fails (for example because the
+	// descriptor was closed underneath): a slot that is being deleted must not stay counted as pending.
 	err := p.DelRead(slot)
+	werr := p.DelWrite(slot)
 	if err == nil {
-		return p.DelWrite(slot)
+		return werr
 	}
 	return nil
 }
